@@ -8,6 +8,8 @@ import ZCV.Spec.Grammar
 import ZCV.Spec.Registry
 import ZCV.Spec.Tree
 import ZCV.Model.TreeLoad
+import ZCV.Model.Url
+import ZCV.Spec.Url
 /-! Line-protocol driver: one request per line, one answer per line. Imports Spec + Model + Gen only. -/
 open ZCV ZCV.SExp ZCV.Codec ZCV.Cfg
 
@@ -99,6 +101,9 @@ def handle (st : DState) : SExp → DState × SExp
           | some v => .list [.atom "accept", encVal v]
           | none => .list [.atom "reject"]
       | _, _, _, _ => .list [.atom "bad-request", .atom "loadspec"])
+  -- (url "s") → (isPath-model isPath-spec "urlnormalize" normalForm-of-result)
+  | .list [.atom "url", .str u] =>
+    (st, .list [ofBool (Url.isPath u), ofBool (UrlSpec.isPath u), .str (Url.urlnormalize u), ofBool (UrlSpec.normalForm (Url.urlnormalize u))])
   -- (schemaok schema) → t/f
   | .list [.atom "schemaok", sch] =>
     (st, match decSchema sch with | some sc => ofBool (Conf.schemaOK sc) | none => .atom "bad-request")
